@@ -6,6 +6,7 @@ package main
 
 import (
 	"go/token"
+	"go/types"
 	"strings"
 
 	"golang.org/x/tools/go/ssa"
@@ -271,6 +272,15 @@ func (p Path) InfeasibleByEval() bool {
 	e := &miniEnv{vals: map[ssa.Value]int64{}}
 	lens := lenFacts{}
 	for i, b := range p.Blocks {
+		// values (re)defined by this execution of b: branch facts recorded for an earlier
+		// execution no longer apply
+		for _, in := range b.Instrs {
+			if v, ok := in.(ssa.Value); ok {
+				if _, isPhi := v.(*ssa.Phi); !isPhi {
+					delete(e.vals, v)
+				}
+			}
+		}
 		if i > 0 {
 			prev := p.Blocks[i-1]
 			type upd struct {
@@ -309,9 +319,25 @@ func (p Path) InfeasibleByEval() bool {
 					}
 				} else if !lens.assume(e, iff.Cond, took) {
 					return true
+				} else if opaqueBool(iff.Cond) {
+					// the branch taken fixes the value of an opaque boolean (a call result)
+					// until its defining block runs again
+					e.vals[iff.Cond] = b2i(took)
 				}
 			}
 		}
+	}
+	return false
+}
+
+// opaqueBool: a boolean the evaluator cannot compute (call result, extract, load, parameter).
+func opaqueBool(v ssa.Value) bool {
+	if b, ok := v.Type().Underlying().(*types.Basic); !ok || b.Kind() != types.Bool {
+		return false
+	}
+	switch v.(type) {
+	case *ssa.Call, *ssa.Extract, *ssa.Parameter, *ssa.Lookup, *ssa.TypeAssert:
+		return true
 	}
 	return false
 }
